@@ -26,20 +26,12 @@ Theorem C39_grpc_runs_implies_allowed_partial : forall cfg t c full fn,
 Proof. exact grpc_runs_implies_allowed_partial. Qed.
 Print Assumptions C39_grpc_runs_implies_allowed_partial.
 
-Theorem C39_eth_refuted : ~ eth_same_clients_full.
-Proof. exact eth_same_clients_refuted. Qed.
-Print Assumptions C39_eth_refuted.
+Theorem C39_eth_same_clients : forall cfg c,
+  ip_list_configured cfg = true -> eth_ip_gate cfg c = ip_gate (init cfg) c.
+Proof. exact eth_same_clients. Qed.
+Print Assumptions C39_eth_same_clients.
 
-Theorem C39_eth_same_clients_partial : forall cfg c,
-  eth_guard cfg = true -> eth_ip_gate cfg c = ip_gate (init cfg) c.
-Proof. exact eth_same_clients_partial. Qed.
-Print Assumptions C39_eth_same_clients_partial.
-
-Theorem C39_eth_guard_exact : forall cfg c,
-  ip_list_configured cfg = true -> eth_guard cfg = false ->
-  is_loopback c = false ->
-  mem (lookup_text c) (c_whitelist cfg) = false ->
-  eth_ip_gate cfg c <> ip_gate (init cfg) c
-  \/ (is_nil (c_whitelist cfg) = true /\ ip_gate (init cfg) c = true).
-Proof. exact eth_guard_exact. Qed.
-Print Assumptions C39_eth_guard_exact.
+Theorem C39_eth_no_list_serves_all : forall cfg c,
+  ip_list_configured cfg = false -> eth_ip_gate cfg c = true.
+Proof. exact eth_no_list_serves_all. Qed.
+Print Assumptions C39_eth_no_list_serves_all.
